@@ -279,31 +279,27 @@ def BandState.planGeneric (b : BandState) (dev : List Int) : Outcome (List Plan)
   if diff.length == 0 || filtered.length == 0 then ok []
   else planLoop b.up dev enabled (sortInts diff) (-1)
 
-/-- generic `GetEnabledUplinkChannelIndicesForLinkADRReqPayloads` -/
+/-- one payload of `GetEnabledUplinkChannelIndicesForLinkADRReqPayloads`: the Go loop over the 16 mask bits returns an error
+at the first set bit beyond the plan and otherwise overwrites positions base..base+15 that exist. `base` is
+`int(pl.Redundancy.ChMaskCntl*16)`, a uint8 multiplication. -/
+def applyBlock (n base : Nat) (mask : BitVec 16) (m : List Bool) : Outcome (List Bool) :=
+  if (List.range 16).any (fun i => decide (base + i ≥ n) && mask.getLsbD i) then err
+  else ok ((List.range m.length).map fun j => if base ≤ j ∧ j < base + 16 then mask.getLsbD (j - base) else m.getD j false)
+
 def applyGenericLoop (n : Nat) : List Plan → List Bool → Outcome (List Bool)
   | [], m => ok m
-  | p :: ps, m =>
-    let base := (p.cntl * 16#8).toNat   -- `pl.Redundancy.ChMaskCntl*16` is a uint8 multiplication
-    let step (acc : Outcome (List Bool)) (i : Nat) : Outcome (List Bool) := do
-      let mm ← acc
-      let en := p.mask.getLsbD i
-      if base + i ≥ n && !en then ok mm
-      else if base + i ≥ n then err
-      else ok (mm.set (base + i) en)
-    match (List.range 16).foldl step (ok m) with
-    | .ok m' => applyGenericLoop n ps m'
-    | .err => err
-    | .panic => panic
+  | p :: ps, m => do
+    let m' ← applyBlock n (p.cntl * 16#8).toNat p.mask m
+    applyGenericLoop n ps m'
 
-def devMask (n : Nat) (dev : List Int) : Outcome (List Bool) :=
-  dev.foldlM (fun m c => if c ≥ 0 ∧ c < (n : Int) then ok (m.set c.toNat true) else ok m) (List.replicate n false)
+/-- the device's channel mask: channels beyond the plan (or negative) are ignored -/
+def devMask (n : Nat) (dev : List Int) : List Bool := (List.range n).map fun j => dev.contains (Int.ofNat j)
 
 def maskToIdx (m : List Bool) : List Int :=
   (List.range m.length).filterMap fun (i : Nat) => if m.getD i false then some (Int.ofNat i) else none
 
 def BandState.applyGeneric (b : BandState) (dev : List Int) (pls : List Plan) : Outcome (List Int) := do
-  let m ← devMask b.up.length dev
-  let m' ← applyGenericLoop b.up.length pls m
+  let m' ← applyGenericLoop b.up.length pls (devMask b.up.length dev)
   ok (maskToIdx m')
 
 /-! ### US915 / AU915 overrides -/
@@ -332,22 +328,14 @@ def applyUSLoop (n : Nat) : List Plan → List Bool → Outcome (List Bool)
   | [], m => ok m
   | p :: ps, m =>
     if p.cntl == 6 ∨ p.cntl == 7 then
-      let m1 := (List.range m.length).map fun i => if i < 64 then (p.cntl == 6) else m.getD i false
-      let step (acc : Outcome (List Bool)) (i : Nat) : Outcome (List Bool) := do
-        let mm ← acc
-        let en := p.mask.getLsbD i
-        if 64 + i ≥ n && !en then ok mm
-        else if 64 + i ≥ n then err
-        else ok (mm.set (64 + i) en)
-      match (List.range 16).foldl step (ok m1) with
-      | .ok m' => applyUSLoop n ps m'
-      | .err => err
-      | .panic => panic
-    else
-      match applyGenericLoop n [p] m with
-      | .ok m' => applyUSLoop n ps m'
-      | .err => err
-      | .panic => panic
+      -- `chMask[i]` for i < 64 and `chMask[64+i]` for the first 8 mask bits are unchecked index expressions
+      if m.length < 72 then panic
+      else
+        applyUSLoop n ps ((List.range m.length).map fun i =>
+          if i < 64 then (p.cntl == 6) else if i < 72 then p.mask.getLsbD (i - 64) else m.getD i false)
+    else do
+      let m' ← applyBlock n (p.cntl * 16#8).toNat p.mask m
+      applyUSLoop n ps m'
 
 def BandState.plan (b : BandState) (dev : List Int) : Outcome (List Plan) :=
   match b.cfg.family with
@@ -357,8 +345,7 @@ def BandState.plan (b : BandState) (dev : List Int) : Outcome (List Plan) :=
 def BandState.apply (b : BandState) (dev : List Int) (pls : List Plan) : Outcome (List Int) :=
   match b.cfg.family with
   | .us915 | .au915 => do
-    let m ← devMask b.up.length dev
-    let m' ← applyUSLoop b.up.length pls m
+    let m' ← applyUSLoop b.up.length pls (devMask b.up.length dev)
     ok (maskToIdx m')
   | _ => b.applyGeneric dev pls
 
